@@ -343,7 +343,9 @@ def report(prop: str, tier: str, results: List[Dict[str, Any]], wall: float, ver
             ],
             "functions_under_contract": functions,
             "units": [{"name": r["name"], "kind": r["kind"], "paths": r["paths"], "wall_s": round(r["wall_s"], 2),
-                       "obligation_instances": len(r["obligations"]), "note": r.get("note", "")} for r in results],
+                       "obligation_instances": len(r["obligations"]), "note": r.get("note", ""),
+                       "branches_of_the_target_not_reached_under_the_contract": r.get("uncovered_branches", [])}
+                      for r in results],
             "bounded_standins_not_counted_as_proved": bounded,
             "undecided_items": undecided, "checker_errors": checker_errors,
             "known_findings": list(dict.fromkeys(known_hits)),
@@ -365,6 +367,9 @@ def report(prop: str, tier: str, results: List[Dict[str, Any]], wall: float, ver
     print(f"[{prop}] tier={tier} units={len(results)} obligations={n_ob} proved={len(proved)} refuted={len(refuted)} "
           f"unknown={len(unknown)} bounded_units={len(bounded)} wall={wall:.1f}s solver={solver_s:.1f}s")
     if verbose:
+        for r in results:
+            if r.get("uncovered_branches"):
+                print(f"  UNCOVERED {r['name']}: if-branches never reached: {' '.join(r['uncovered_branches'])}")
         for g in grouped.values():
             if g["time_s"] > 2:
                 print(f"  SLOW {g['time_s']:.1f}s x{g['instances']} {g['key']} {sorted(g['backends'])}")
